@@ -14,14 +14,14 @@ module threadStack1(clk,
     input reset;
     output empty;
     output full;
-    input [267:0] senderData;
+    input [73:0] senderData;
     input senderWrite;
     output reg senderAck;
-    output reg [267:0] receiverData;
+    output reg [73:0] receiverData;
     input receiverRead;
     output reg receiverAck;
 
-    reg [267:0] memory[0:0];
+    reg [73:0] memory[0:0];
     reg [0:0] sp;
     reg [0:0] readsp;
     reg [0:0] writesp;
@@ -55,13 +55,13 @@ module threadStack1(clk,
             sp <= 1'd0;
             readsp <= 1'd0;
             writesp <= 1'd0;
-            receiverData <= 268'd0;
+            receiverData <= 74'd0;
             receiverAck <= 1'b0;
             senderAck <= 1'b0;
             sendSM <= 1'd0;
             recvSM <= 1'd0;
             for (i=0;i<1;i=i+1) begin
-                memory[i]<=268'd0;
+                memory[i]<=74'd0;
             end
         end
         else begin
@@ -70,7 +70,7 @@ module threadStack1(clk,
                 case (recvSM)
                 1'd0: begin
                     if (receiverRead && !receiverAck) begin
-                        receiverData[267:0] <= memory[readsp];
+                        receiverData[73:0] <= memory[readsp];
                         if (readsp==0) begin
                             readsp <= 0;
                             sp <=  writesp;
@@ -94,7 +94,7 @@ module threadStack1(clk,
                 case (sendSM)
                 1'd0: begin
                     if (senderWrite && !senderAck) begin
-                        memory[writesp] <= senderData[267:0];
+                        memory[writesp] <= senderData[73:0];
                         if (writesp==0) begin
                             writesp <= 0;
                             sp <= 1 - readsp;
